@@ -66,7 +66,7 @@ Cfg(path, kind, omp, nac, dec, wev, wgv, wdm, conn, dir, shape, meshlen, gc, qs)
 N(c) == Len(c.qs)
 
 (* the sites where code variants differ; TRUE = repaired behaviour *)
-CodeSites == {"dmCopy", "iterInit", "gcPrivate", "closedDir", "ompRound", "iterFactor"}
+CodeSites == {"dmCopy", "iterInit", "gcPrivate", "closedDir", "ompRound", "iterFactor", "qCopy"}
 Pinned   == [s \in CodeSites |-> FALSE]
 Repaired == [s \in CodeSites |-> TRUE]
 
@@ -164,6 +164,19 @@ NoneRef == <<-1, 0>>
 Deref(h, r) == h[r[1]][r[2]]
 Q(j) == cfg.qs[j]
 
+(* PRESENTATION of the q-point argument (cfg.lay).  The same VALUES may be handed over as a  *)
+(* list, a tuple, a C array, a Fortran array, a transposed view, a strided row slice, a        *)
+(* column slice of a wider array, a float32 / integer array (values exactly representable),    *)
+(* or a read-only array.  The requirement side never mentions lay: tokens depend on the value  *)
+(* of q only.  Implementation: the C wrapper reads the q-points from the raw data pointer, so  *)
+(* run_dynamical_matrix_solver_c has to pass it a C-contiguous double copy of anything else;   *)
+(* code.qCopy = FALSE is a solver that hands over a non-contiguous array as it is (the         *)
+(* numbers read are then those of other q-points or of no q-point: an "X").                    *)
+Lays == {"list", "tuple", "carray", "farray", "tview", "strided", "colslice", "f32", "int", "readonly"}
+NonContiguous == {"farray", "tview", "strided", "colslice"}
+Scrambled == ~code["qCopy"] /\ cfg.lay \in NonContiguous
+GV(q, p, o) == IF Scrambled THEN XTok ELSE GVTok(q, p, o)
+
 (* DynamicalMatrix(.NAC).run(q, q_direction) followed by the               *)
 (* `dynamical_matrix` property (which rounds when decimals is set).         *)
 (* qdir: "None" | "zero" (a zero vector) | "vec"                            *)
@@ -173,10 +186,11 @@ PyDmRun(c, q, qdir) ==
                  IN IF normzero THEN "none"                 \* self._run(q): plain matrix
                     ELSE IF q = "G" THEN (IF qdir = "vec" THEN "dir" ELSE "none")
                     ELSE "q"                                \* the kernel ignores the direction away from Gamma
-  IN DTok(q, nt, c.dec)
+  IN IF Scrambled THEN XTok ELSE DTok(q, nt, c.dec)
 
 (* one matrix of run_dynamical_matrix_solver_c(dm, qpoints, nac_q_direction) *)
 SolverC(c, cd, q, hasdir) ==
+  IF Scrambled THEN XTok ELSE
   DTok(q,
        IF c.nac = "none" THEN "none" ELSE IF q = "G" THEN (IF hasdir THEN "dir" ELSE "none") ELSE "q",
        cd["ompRound"] /\ c.dec)
@@ -207,7 +221,7 @@ Fail(e) == /\ err' = e /\ pc' = "done" /\ out' = [out EXCEPT !.err = e]
 QpGV ==        \* self._gv_obj.run(qpoints, perturbation=nac_q_direction)
   /\ pc = "qp_gv"
   /\ out' = IF cfg.wgv
-              THEN [out EXCEPT !.gv = [j \in 1..N(cfg) |-> GVTok(Q(j), IF cfg.dir THEN "dir" ELSE "none", 0)]]
+              THEN [out EXCEPT !.gv = [j \in 1..N(cfg) |-> GV(Q(j), IF cfg.dir THEN "dir" ELSE "none", 0)]]
               ELSE out
   /\ pc' = "qp_alloc"
   /\ UNCHANGED <<cfg, code, i, heap, loc, err>>
@@ -320,7 +334,7 @@ ImRet ==       \* return frequencies, eigenvectors
 BsStart ==     \* group velocities of the whole path; q_direction of the path
   /\ pc = "bs_start"
   /\ loc' = [loc EXCEPT
-       !.gv = IF cfg.wgv THEN [j \in 1..N(cfg) |-> GVTok(Q(j), "none", 0)] ELSE <<>>,
+       !.gv = IF cfg.wgv THEN [j \in 1..N(cfg) |-> GV(Q(j), "none", 0)] ELSE <<>>,
        !.qdir = IF cfg.nac = "none" THEN "None"
                 ELSE CASE cfg.shape = "radial" -> "vec"
                        [] cfg.shape = "closed" -> (IF code["closedDir"] THEN "None" ELSE "zero")   \* path[0] - path[-1] = 0
@@ -442,5 +456,12 @@ DirectCfgs == {c \in {Cfg("direct", kind, omp, nac, dec, FALSE, FALSE, FALSE, FA
 BaseCfgs == QpCfgs \cup MeshCfgs("mesh") \cup MeshCfgs("itermesh") \cup BandCfgs \cup DirectCfgs
 (* the unit conversion factor of the object: VaspToTHz (default), VaspToCm, an arbitrary 3.7 *)
 Facs == {"vasp", "cm", "x37"}
-AllCfgs == {[fac |-> f] @@ c : c \in BaseCfgs, f \in Facs}
+FacCfgs == {[fac |-> f, lay |-> "carray"] @@ c : c \in BaseCfgs, f \in Facs}
+(* the presentations of the q-point argument, for the routes that take q-points from the caller *)
+LayCfgs == {[fac |-> "vasp", lay |-> l] @@ c :
+              c \in {b \in BaseCfgs : /\ b.path \in {"qpoints", "band", "direct"} /\ ~b.dec
+                                      /\ b.path = "qpoints" => b.qs \in {<<"G", "q1", "q2">>, <<"q1", "q1">>}
+                                      /\ b.path = "band" => b.qs \in {<<"q1", "G", "q2">>, <<"G", "q1">>, <<"q1", "q2", "q1">>, <<"q1", "q2">>}},
+              l \in Lays \ {"carray"}}
+AllCfgs == FacCfgs \cup LayCfgs
 =============================================================================
